@@ -6,6 +6,7 @@ CONSTANTS
   Mode = "geometry"
   GeomRefs = {"allC", "allG", "CG"}
   MaxFrags = 2
+  DistMode = "zero"
   Variant = "design"
 INVARIANT Inv_C14_OnTarget
 INVARIANT Inv_C14_DoveSafe
